@@ -111,6 +111,9 @@ theorem C13_stray_directive_is_error (cfg : Cfg) (m : CM) (d : Dir) (hc : m.cras
   rcases hd with ⟨c, rfl⟩ | rfl | rfl <;>
     simp [CM.step, CM.doElif, CM.doElse, CM.doEndif, hc, hf]
 
+example : (CM.init.step Cfg.repaired .endif).1 = { CM.init with errors := 1 } :=
+  C13_stray_directive_is_error Cfg.repaired CM.init .endif rfl rfl (Or.inr (Or.inr rfl))
+
 /-! ### (c) evaluation -/
 
 /-- With short-circuit evaluation the right operand of `&&` (left false), of `||` (left true) and the
@@ -148,6 +151,14 @@ theorem C13_eval_agrees_with_C (e : Expr) (hs : S64 e = true) (c : CVal) (hc : e
 
 example : S64 (.bin .land (.bin .gt (.bin .add (.lit false 2147483647) (.lit false 1)) (.lit false 0))
                           (.un .not (.bin .div (.lit true 7) (.lit false 2)))) = true := by decide
+
+/-- projections used by the examples -/
+def okToks : Res (List Tok × PP) → Option (List Tok)
+  | .ok (a, _) => some a
+  | _ => none
+def okRef : RRes (List HTok) → Option (List Tok)
+  | .ok r => some (r.map (·.tok))
+  | _ => none
 
 /-! ### (d) macro expansion
 
@@ -231,5 +242,17 @@ theorem C13_expand_agrees_partial (vc : XCfg) (tbl : List Macro) (toks : List To
     (h2 : expandR n' tbl ((toks ++ [nlTok]).map (fun t => (⟨t, []⟩ : HTok))) = .ok r) :
     o = r.map (·.tok) :=
   expandLine_obj_agrees vc tbl toks hobj hnd ht n n' o s' r h1 h2
+
+/-- the hypotheses are satisfiable with a cyclic table: `#define A B A`, `#define B A`, line `A x B`: both
+    algorithms finish and give `A A x B A` -/
+example :
+    okToks (expandLine ⟨true, true⟩ 40 { table := [⟨"A", false, 0, false, [.raw (tId "B"), .raw (tId "A")], false⟩,
+                                           ⟨"B", false, 0, false, [.raw (tId "A")], false⟩] }
+        [tId "A", tId "x", tId "B"]) = some [tId "A", tId "A", tId "x", tId "B", tId "A", nlTok] ∧
+    okRef (expandR 40 [⟨"A", false, 0, false, [.raw (tId "B"), .raw (tId "A")], false⟩,
+                 ⟨"B", false, 0, false, [.raw (tId "A")], false⟩]
+        (([tId "A", tId "x", tId "B"] ++ [nlTok]).map (fun t => (⟨t, []⟩ : HTok)))) =
+      some [tId "A", tId "A", tId "x", tId "B", tId "A", nlTok] := by
+  decide +kernel
 
 end Occa.Cpp.C13
